@@ -30,8 +30,15 @@ Bits(x, lo, n)  == (x \div (2 ^ lo)) % (2 ^ n)
 
 BoolBit(p)      == IF p THEN 1 ELSE 0
 
-RECURSIVE FlatSeq(_)
-FlatSeq(ss) == IF ss = << >> THEN << >> ELSE Head(ss) \o FlatSeq(Tail(ss))
+\* Concatenation of a sequence of sequences, by halving: TLC's cost of a recursion grows with its
+\* depth (every level lengthens the chain of bindings a lookup walks), so a linear recursion over
+\* 65,535 pieces is quadratic; halving keeps the depth logarithmic.
+RECURSIVE FlatRange(_, _, _)
+FlatRange(ss, lo, hi) ==
+  IF lo > hi THEN << >>
+  ELSE IF lo = hi THEN ss[lo]
+  ELSE LET mid == (lo + hi) \div 2 IN FlatRange(ss, lo, mid) \o FlatRange(ss, mid + 1, hi)
+FlatSeq(ss) == FlatRange(ss, 1, Len(ss))
 
 \* concatenation of f(s[i]) for i in 1..Len(s)
 FlatMap(f(_), s) == FlatSeq([i \in 1..Len(s) |-> f(s[i])])
@@ -42,10 +49,12 @@ FlatFixed(f(_), s, w) ==
   LET enc == [i \in 1..Len(s) |-> f(s[i])]
   IN  [j \in 1..(w * Len(s)) |-> enc[((j - 1) \div w) + 1][((j - 1) % w) + 1]]
 
-SeqSum(s) ==
-  LET RECURSIVE go(_, _)
-      go(i, acc) == IF i > Len(s) THEN acc ELSE go(i + 1, acc + s[i])
-  IN  go(1, 0)
+RECURSIVE SumRange(_, _, _)
+SumRange(s, lo, hi) ==
+  IF lo > hi THEN 0
+  ELSE IF lo = hi THEN s[lo]
+  ELSE LET mid == (lo + hi) \div 2 IN SumRange(s, lo, mid) + SumRange(s, mid + 1, hi)
+SeqSum(s) == SumRange(s, 1, Len(s))
 
 Min(a, b) == IF a < b THEN a ELSE b
 Max(a, b) == IF a > b THEN a ELSE b
